@@ -5,47 +5,24 @@ import os
 
 VERIF = os.path.dirname(os.path.dirname(os.path.abspath(__file__)))
 
-MC = "model_checking"
-CLAIMS = {
-    # id: (level, text, note, technique, design_ref)
-    "C17": (MC,
-            "TLC checks the C17 monitor exhaustively on spec/CoalesceMember.tla (all event/flush sequences over NM names x 5 kinds); "
-            "TLC-simulated behaviours are executed on the real memberEventCoalescer and every recorded call is validated against "
-            "the spec by TLC (Trace_CoalesceMember), with the same monitor evaluated on the observed outputs.",
-            "Trusts TLC, the overlay accessor that constructs the coalescer as serf.Create does, and that coalesceLoop calls "
-            "Coalesce/Flush from one goroutine.",
-            "TLA+ spec + TLC exhaustive check; TLC-generated schedules replayed on the real code; TLC trace validation with property monitors",
-            "5 C17"),
-    "C18": (MC,
-            "TLC checks the C18 monitor exhaustively on spec/CoalesceUser.tla (feeds of coalescable/plain user events, member events and "
-            "queries with Lamport-time ties, flush anywhere); simulated behaviours run on the real userEventCoalescer and through the real "
-            "coalesceLoop goroutine; every recorded step is validated by TLC against the spec with the monitor on observed outputs.",
-            "Trusts TLC and the overlay accessor; loop-mode runs flush only at shutdown (timers never fire).",
-            "TLA+ spec + TLC exhaustive check; TLC-generated schedules replayed on the real code; TLC trace validation with property monitors",
-            "5 C18"),
-    "C19": (MC,
-            "TLC checks C19 exhaustively on spec/Lamport.tla (2 threads x 2 calls and 3 threads x 1 call over Time/Increment/Witness with "
-            "values {0,1,2,MAX-1,MAX}, every interleaving of the atomic accesses, MAX standing for 2^64-1); the real LamportClock, "
-            "yield-instrumented from the working tree, is run under every schedule with <=2 (thorough 3) preemptions plus random ones by a "
-            "cooperative scheduler, and every scheduling step is validated by TLC against the spec (subset construction over the unlogged "
-            "locals) with the C19 monitor on the observed counter and results.",
-            "Trusts TLC, the instrumenter (yield before every statement of lamport.go), the gap embedding of 0..MAX into uint64. "
-            "The wrap at 2^64-1 is a recorded known finding (tag at_top).",
-            "TLA+ spec + TLC exhaustive check; systematic schedule enumeration of the instrumented real code; TLC trace validation with property monitors",
-            "5 C19"),
-    "C03": (MC,
-            "TLC checks the C03 monitors (self listed alive while not leaving; every leave/force-leave/prune claim or state-sync left-entry about the "
-            "local node newer than its join is answered by a queued join strictly newer than the claim) exhaustively on the open single-replica model "
-            "and on every step of TLC-simulated input sequences executed on a real Serf node (messages in the real wire format through NotifyMsg / "
-            "MergeRemoteState, force-leave and broadcastJoin through the API).",
-            "Trusts TLC, the overlay accessor that reads members/status times/lists/intent buffer under memberLock, the wire encoding mirror in the harness, and that memberlist never reports a leave for a node it has not reported joined.", "TLA+ spec (SerfHandlers/SerfReplica) + TLC exhaustive check of the monitors; TLC-simulated input sequences replayed on a real quiet Serf node; TLC trace validation of every step with property monitors on observed state", "5 C03"),
-    "C15": (MC,
-            "TLC checks the C15 monitors (Stats() failed/left equal the counts in Members(), lists duplicate-free and status-consistent, reap removes "
-            "exactly the expired failed/left members with one reap event each using the reconnect/tombstone base per list, pruned member gone) "
-            "exhaustively on the model and on every step of simulated histories run on a real node whose reaper runs every 3ms with per-member expiry "
-            "chosen through ReconnectTimeoutOverride.",
-            "Trusts TLC, the overlay accessor that reads members/status times/lists/intent buffer under memberLock, the wire encoding mirror in the harness, and that memberlist never reports a leave for a node it has not reported joined.", "TLA+ spec (SerfHandlers/SerfReplica) + TLC exhaustive check of the monitors; TLC-simulated input sequences replayed on a real quiet Serf node; TLC trace validation of every step with property monitors on observed state", "5 C15"),
-}
+
+
+def collect_claims():
+    """Every tools/families/<f>.py may declare CLAIMS = {id: (level, text, note, technique, design_ref)}."""
+    import importlib
+    import sys
+    sys.path.insert(0, os.path.join(VERIF, "tools"))
+    res = {}
+    d = os.path.join(VERIF, "tools", "families")
+    for f in sorted(os.listdir(d)):
+        if f.endswith(".py") and not f.startswith("_"):
+            mod = importlib.import_module("families." + f[:-3])
+            for pid, c in getattr(mod, "CLAIMS", {}).items():
+                res[pid] = c
+    return res
+
+
+CLAIMS = collect_claims()
 
 PENDING_REASON = "check not built yet in this session (planned, see DESIGN.md section 5); not claimed until its self-test passes"
 
